@@ -173,9 +173,11 @@ def run(ctx):
         return
     D = dim_locals.pop()
     defs = []
-    for (dbb, didx) in b.defs().get(D, []):
-        e = R.def_expr(dbb, didx)
-        lits = literals(b, R, dbb)
+    from ..mir import value_table
+    # every value the running dimension is given, with its guards; `dim = step(.., dim)` where an arm hands the old value back is no change
+    for e, lits, dbb in value_table(b, R, D):
+        if e[0] == 'var' and e[1] == D:
+            continue
         arm = [list(l[2])[0] for l in lits if l[0] == 'is' and len(l[2]) == 1 and list(l[2])[0] in variants]
         defs.append((dbb, e, arm[0] if arm else None, lits))
     for v in variants:
